@@ -68,6 +68,15 @@ def instances(tier, seed):
                       ({'fam': 'L1', 'bn_stats': 'generic', 'pit': {'fold_bn': fold}}, False)]
     for spec, symw in progs:
         out.append({'id': pitlib.prog_id(spec) + (':symw' if symw else ''), 'spec': spec, 'symw': symw, 'wseed': seed})
+    # another phase of the search: the masks keep their values but are no longer trained (train_features / train_rf / train_dilation switched off,
+    # train_net_only()); the exported network must still be the masked one
+    ph = [({'fam': 'D2', 'C': 2}, [['train_features', False]]), ({'fam': 'L1'}, [['train_features', False]]), ({'fam': 'T1', 'K': 3, 'd0': 1, 's': 1, 'C': 2}, [['train_rf', False], ['train_dilation', False]]),
+          ({'fam': 'T1', 'K': 4, 'd0': 1, 's': 1, 'C': 2}, [['train_net_only', 'call']])]
+    if tier != 'quick':
+        ph += [({'fam': 'T2', 'K0': 3, 'K1': 2}, [['train_net_only', 'call']]), ({'fam': 'A1', 'K': 2, 'C': 2}, [['train_features', False], ['train_rf', False]]), ({'fam': 'T1', 'K': 5, 'd0': 1, 's': 1, 'C': 2}, [['train_rf', False]])]
+    for spec, after in ph:
+        sp = dict(spec, after=after)
+        out.append({'id': pitlib.prog_id(sp), 'spec': sp, 'symw': False, 'wseed': seed})
     # the masks are written (through .data / in place under no_grad) into a model that has already been evaluated, summarised and exported
     # at its previous masks: nothing derived from the old values may survive
     hp = [{'fam': 'T1', 'K': 3, 'd0': 1, 's': 1, 'C': 2}, {'fam': 'T2', 'K0': 2, 'K1': 1, 'T': 2}] + ([{'fam': 'D2', 'C': 2}, {'fam': 'A1', 'K': 2, 'C': 2}] if tier != 'quick' else [])
